@@ -153,6 +153,11 @@ def all_paths(quick):
         for pfx in PFX_MOUNTED:
             add(pfx.replace(b'\\', b'/') + _join(seq, [b'/']))
             add(pfx + _join(seq, [b'/']))
+    if quick:
+        # UNC look-alikes (doubled leading backslash) one level deeper than the plain quick paths
+        for seq in itertools.product(K, repeat=3):
+            add(b'\\\\' + _join(seq, [b'\\', b'\\']))
+            add(b'E:\\\\' + _join(seq, [b'\\', b'\\']))
     if not quick:
         for seq in itertools.product(K, repeat=3):
             for pfx in PFX_MOUNTED:
